@@ -43,6 +43,10 @@ def run(ctx):
     for o in c04.run(ctx).obligations:
         if o["rule"] in ("C04-R2", "C04-R6"):
             res.check(o["ok"], "C17-R4", o["key"], o["loc"], o["detail"], o["detail"])
+    # "invalid message -> erase" presupposes that the message validator calls invalid what the protocol calls invalid — every accepting return
+    # has established error flag clear and payload type != 0, and rejects for nothing else (C03-R4 / C04-R4, shared)
+    from rules import c03
+    c03.rule_message_validator_exact(fb, res, "C17-R1", "message-validator:")
     res.floor("C17-R4", 3)
     res.floor("C17-R1", 6, n)
     res.floor("C17-R1L", 3)
